@@ -1157,8 +1157,16 @@ func (el edgeList) Less(i, j int) bool {
 
 	to1 := el[i].Dest.Info.PrintableName()
 	to2 := el[j].Dest.Info.PrintableName()
+	if to1 != to2 {
+		return to1 < to2
+	}
 
-	return to1 < to2
+	// Printable names are not unique per node: fall back to the full node
+	// identities so that the order is total.
+	if iv, jv := fmt.Sprint(el[i].Src.Info), fmt.Sprint(el[j].Src.Info); iv != jv {
+		return iv < jv
+	}
+	return fmt.Sprint(el[i].Dest.Info) < fmt.Sprint(el[j].Dest.Info)
 }
 
 func (el edgeList) Swap(i, j int) {
